@@ -363,6 +363,58 @@ def serde_big(tier, rng):
     yield case("MO-sb4", cfg(K="spur", H="fnv"), [f"EXP NEW0 DE threaded {m}", "EXP #3000 LEN 0", f"EXP K0 G 0 {hx(strs[0])}", f"EXP K2999 G 0 {hx(strs[2999])}",
                                                  f"EXP K3000 I 0 {hx(b'fresh')}", "EXP U RD 0", f"EXP K17 G 0 {hx(strs[17])}"])
 
+def threaded_growth_after_de(tier, rng):
+    """a deserialised ThreadedRodeo keeps working while its shard tables GROW: restore n strings, intern many fresh ones
+    (every shard table of the string->key map re-hashes its entries several times), then every old and new string must
+    still be found under its key and interning an old string again must return the old key.  Monitor-only with the
+    expected answers stated here (restored string i has key i, the j-th fresh string gets key n+j)."""
+    for c, (n, fresh, H) in enumerate([(300, 1500, "rs"), (64, 2500, "rcl"), (700, 900, "fnv")] if tier == "quick"
+                                      else [(300, 1500, "rs"), (64, 2500, "rcl"), (700, 900, "fnv"), (3000, 20000, "rs"), (10, 30000, "low3")]):
+        old = [b"o%04x-%d" % (i, c) for i in range(n)]
+        new = [b"n%05x" % j for j in range(fresh)]
+        m = "M:" + ",".join(f"{hx(s)}={i + 1}" for i, s in enumerate(old))
+        ops = [f"EXP NEW0 DE threaded {m}", f"EXP #{n} LEN 0"]
+        ops += [f"EXP K{n + j} I 0 {hx(t)}" for j, t in enumerate(new)]
+        ops += [f"EXP K{i} G 0 {hx(old[i])}" for i in range(0, n, max(1, n // 150))]
+        ops += [f"EXP K{i} I 0 {hx(old[i])}" for i in range(0, n, max(1, n // 60))]
+        ops += [f"EXP K{n + j} G 0 {hx(new[j])}" for j in range(0, fresh, max(1, fresh // 150))]
+        ops += [f"EXP #{n + fresh} LEN 0", f"EXP S:{hx(old[n - 1])} TR 0 {n - 1}", "EXP U RD 0",
+                f"EXP K{n // 2} G 0 {hx(old[n // 2])}", f"EXP K{n + fresh - 1} G 0 {hx(new[-1])}"]
+        yield case(f"MO-tg{c}", cfg(K="spur", H=H), ops)
+
+def long_strings(tier, rng, count):
+    """strings around and above 4 KiB (a page, the default block size, common cut-off constants): lookups by content,
+    views made from both interners, clones and serde round trips must treat them like any other string"""
+    sizes = [4095, 4096, 4097, 5000, 8191, 8193, 9000]
+    for n in range(count):
+        kind = ["NR", "NT"][n % 2]
+        cap = rng.choice([64, 4096, 8192, 20000])
+        k = rng.randrange(2, 5)
+        # strings sharing a long common prefix (first 4096 bytes equal) and differing only far behind it
+        base = bytes(rng.choice(b"abcdefgh") for _ in range(64)) * 80
+        strs = []
+        for i in range(k):
+            L = rng.choice(sizes)
+            tail = b"#%d-%d" % (n, i)
+            strs.append((base[:L - len(tail)] + tail) if rng.random() < 0.7 else (tail + base[:L - len(tail)]))
+        short = [b"s%d" % i for i in range(3)]
+        ops = [f"{kind} {cap} max 0 {n % 7}"]
+        order = strs + short
+        rng.shuffle(order)
+        ops += [f"I 0 {hx(x)}" for x in order]
+        ops += [f"G 0 {hx(x)}" for x in strs] + [f"C 0 {hx(strs[0])}", f"G 0 {hx(strs[0][:-1] + b'!')}"]
+        conv = rng.choice(["RD", "RS", "CL", "SERDE", "none"])
+        if conv in ("RD", "RS"):
+            ops += [f"{conv} 0"] + ([f"G 0 {hx(x)}" for x in strs + short] if conv == "RD" else []) + [f"TR 0 {i}" for i in range(len(order))]
+            if conv == "RD" and rng.random() < 0.5:
+                ops += ["RS 0"] + [f"TR 0 {i}" for i in range(len(order))]
+        elif conv == "CL" and kind == "NR":
+            ops += ["CL 0"] + [f"G 1 {hx(x)}" for x in strs] + [f"I 1 {hx(strs[-1])}", "LEN 1", "EQ 0 1"]
+        elif conv == "SERDE":
+            ops += ["SER 0"]
+        ops += ["LEN 0"]
+        yield case(f"ls{n}", cfg(K="spur", H=rng.choice(HASHERS), V=rng.choice(ROUTES)), ops)
+
 def serde_roundtrip(tier, rng, count):
     """history -> SER -> DE of the same document -> continue on both, compare"""
     for n in range(count):
